@@ -17,6 +17,7 @@ import (
 	"time"
 
 	"google.golang.org/grpc"
+	"google.golang.org/grpc/metadata"
 	"pgregory.net/rapid"
 
 	pb "github.com/fullstorydev/grpchan/grpchantesting"
@@ -31,6 +32,8 @@ type c09Case struct {
 	Header   string `json:",omitempty"` // server: GRPC-Timeout value
 	HasHdr   bool   `json:",omitempty"` // server: header present at all
 	Carrier  string `json:",omitempty"`
+	StaleMD  string `json:",omitempty"` // client/e2e: the caller's outgoing metadata already carries a grpc-timeout key (e.g. forwarded by a gateway)
+	ParentNs int64  `json:",omitempty"` // server: the HTTP request context has its own deadline this far ahead (e.g. http.TimeoutHandler)
 }
 
 var reTimeout = regexp.MustCompile(`^[0-9]+[HMSmun]$`)
@@ -90,7 +93,11 @@ func c09Client(c c09Case, o *Outcome) *Outcome {
 		ctx, cancel = context.WithDeadline(ctx, D)
 		defer cancel()
 	}
-	o.NonTrivial = c.NoDL || c.RemainNs < int64(time.Millisecond) || c.RemainNs > int64(time.Hour)
+	o.NonTrivial = c.NoDL || c.RemainNs < int64(time.Millisecond) || c.RemainNs > int64(time.Hour) || c.StaleMD != ""
+	if c.StaleMD != "" {
+		ctx = metadata.NewOutgoingContext(ctx, metadata.Pairs("grpc-timeout", c.StaleMD, "zz-other", "1"))
+		o.class("stale-grpc-timeout-in-metadata")
+	}
 	if c.Stream {
 		cctx, cancel := context.WithCancel(ctx)
 		defer cancel()
@@ -112,7 +119,7 @@ func c09Client(c c09Case, o *Outcome) *Outcome {
 		return o
 	}
 	if c.NoDL {
-		if len(hdr) != 0 {
+		if len(hdr) != 0 && c.StaleMD == "" {
 			return o.failf("caller has no deadline but GRPC-Timeout %q was sent", hdr)
 		}
 		return o
@@ -192,6 +199,15 @@ func c09Server(c c09Case, o *Outcome) *Outcome {
 	if c.HasHdr {
 		req.Header["Grpc-Timeout"] = []string{c.Header}
 	}
+	var parentDL time.Time
+	if c.ParentNs > 0 {
+		// the server puts its own limit on the request (http.TimeoutHandler, a deadline middleware...)
+		parentDL = time.Now().Add(time.Duration(c.ParentNs))
+		pctx, pcancel := context.WithDeadline(req.Context(), parentDL)
+		defer pcancel()
+		req = req.WithContext(pctx)
+		o.class("server-side-request-deadline")
+	}
 	w := httptest.NewRecorder()
 	before := time.Now()
 	panicked := ""
@@ -213,8 +229,25 @@ func c09Server(c c09Case, o *Outcome) *Outcome {
 		return o.failf("GRPC-Timeout %q: HTTP %d", c.Header, w.Code)
 	}
 	if !wellFormed {
-		if !c.HasHdr && (runs != 1 || hasDL) {
+		if !c.HasHdr && (runs != 1 || (hasDL && c.ParentNs == 0)) {
 			return o.failf("no GRPC-Timeout header: handler runs=%d, deadline=%v", runs, hasDL)
+		}
+		return o
+	}
+	if c.ParentNs > 0 {
+		// the handler's deadline is the earlier of the server's own and the caller's
+		want, ok := satDuration(c.Header)
+		if runs != 1 || !hasDL {
+			return o.failf("GRPC-Timeout %q under a server-side request deadline: runs=%d deadline=%v", c.Header, runs, hasDL)
+		}
+		if dl.After(parentDL) {
+			return o.failf("handler deadline is later than the server's own request deadline")
+		}
+		if ok && want < time.Duration(c.ParentNs)-time.Second {
+			// the caller's is clearly the stricter one: it must be in force
+			if dl.After(entered.Add(want)) {
+				return o.failf("GRPC-Timeout %q (caller's deadline, stricter than the server's own %v): handler deadline %v after request start - the caller's timeout was dropped", c.Header, time.Duration(c.ParentNs), dl.Sub(before))
+			}
 		}
 		return o
 	}
@@ -285,6 +318,9 @@ func c09E2E(c c09Case, o *Outcome) *Outcome {
 		defer cancel()
 	}
 	var callErr error
+	if c.StaleMD != "" {
+		ctx = metadata.NewOutgoingContext(ctx, metadata.Pairs("grpc-timeout", c.StaleMD))
+	}
 	if c.Stream {
 		cctx, cancel := context.WithCancel(ctx)
 		cs, err := car.Conn.NewStream(cctx, streamDescOf(kBidi), mBidi)
@@ -307,7 +343,7 @@ func c09E2E(c c09Case, o *Outcome) *Outcome {
 	}
 	o.Observed = map[string]interface{}{"has_deadline": hasDL, "handler_minus_caller": dl.Sub(D).String(), "transit": entered.Sub(start).String()}
 	if c.NoDL {
-		if hasDL {
+		if hasDL && c.StaleMD == "" {
 			return o.failf("caller has no deadline, handler has one %v ahead", dl.Sub(entered))
 		}
 		return o
@@ -348,7 +384,7 @@ func genTimeoutHeader(t *rapid.T) string {
 func genC09(t *rapid.T) c09Case {
 	switch rapid.IntRange(0, 9).Draw(t, "mode") {
 	case 0, 1, 2:
-		c := c09Case{Mode: "client", Stream: rapid.Bool().Draw(t, "stream")}
+		c := c09Case{Mode: "client", Stream: rapid.Bool().Draw(t, "stream"), StaleMD: rapid.SampledFrom([]string{"", "", "", "1H", "5S", "1n"}).Draw(t, "stalemd")}
 		if rapid.IntRange(0, 9).Draw(t, "nodl") == 0 {
 			c.NoDL = true
 			return c
@@ -358,7 +394,7 @@ func genC09(t *rapid.T) c09Case {
 		c.RemainNs = int64(math.Exp(exp))
 		return c
 	case 3:
-		c := c09Case{Mode: "e2e", Stream: rapid.Bool().Draw(t, "stream"), Carrier: rapid.SampledFrom([]string{cHTTP, cHTTPMux}).Draw(t, "carrier")}
+		c := c09Case{Mode: "e2e", Stream: rapid.Bool().Draw(t, "stream"), Carrier: rapid.SampledFrom([]string{cHTTP, cHTTPMux}).Draw(t, "carrier"), StaleMD: rapid.SampledFrom([]string{"", "", "1H", "99999999H"}).Draw(t, "stalemd")}
 		if rapid.IntRange(0, 5).Draw(t, "nodl") == 0 {
 			c.NoDL = true
 			return c
@@ -373,6 +409,9 @@ func genC09(t *rapid.T) c09Case {
 		return c
 	}
 	c.Header = genTimeoutHeader(t)
+	if rapid.IntRange(0, 4).Draw(t, "parentdl") == 0 {
+		c.ParentNs = int64(rapid.SampledFrom([]time.Duration{30 * time.Second, time.Hour, 100 * 365 * 24 * time.Hour}).Draw(t, "parent"))
+	}
 	return c
 }
 
